@@ -207,8 +207,8 @@ def run(ctx):
     bad_rl, conf_rl = trace_half(ctx, "TraceRateLimit", p_rl, t_rl, "rl")
     bad_au, conf_au = trace_half(ctx, "TraceAuth", p_au, t_au, "au")
     for rec in conf_rl:
-        ctx.disagreement(classify(rec), rec, "trace %s: %s %s ok=%s at %sms answered %s, table %s -> %s (n=%s, block=%sms) rejected by TraceRateLimit" % (
-            rec["tr"], rec["k"], rec["a"], rec["ok"], rec["now"], rec["res"], rec["pre"], rec["post"], rec["n"], rec["b"]))
+        ctx.disagreement(classify(rec), rec, "trace %s: %s %s ok=%s at %sms answered %s, table %s -> %s (n=%s, block=%sms, minute=%sms) rejected by TraceRateLimit" % (
+            rec["tr"], rec["k"], rec["a"], rec["ok"], rec["now"], rec["res"], rec["pre"], rec["post"], rec["n"], rec["b"], rec["w"]))
     for rec in conf_au:
         ctx.disagreement(classify(rec), rec, "trace %s: %s %s at %ss answered %s, sessions %s -> %s (ttl=%ss) rejected by TraceAuth" % (
             rec["tr"], rec["k"], rec["t"], rec["now"], rec["res"], rec["pre"], rec["post"], rec["ttl"]))
@@ -239,6 +239,9 @@ def run(ctx):
         "trace_lines": len(t_rl) + len(t_au), "trace_lines_rejected": len(bad_rl) + len(bad_au),
         "trace_blocked_replies": blocked_lines, "flaky": len(flaky),
         "exhaustive": True, "samples": samples,
+        # TLC's own counters of the two exhaustive runs only (the trace
+        # validation runs are linear and not counted here).
+        "states": rl["distinct"] + au["distinct"], "transitions": rl["generated"] + au["generated"],
     }
     return ctx.finish("model_checking", cov, assumptions=[
         "TLC; the abstraction functions of zz_verif_c12_test.go (live records only, counts capped at the limit, times relative to the virtual clock)",
